@@ -6,10 +6,11 @@
 package main
 
 import (
-	"io"
 	"encoding/hex"
 	"encoding/json"
+	"errors"
 	"fmt"
+	"io"
 	"os"
 	"runtime"
 	"strconv"
@@ -230,6 +231,11 @@ func doLoad(st kjob.Step, idx int) kjob.Event {
 	ev.Nil = err == nil && ev.Panic == ""
 	if err != nil {
 		ev.Err = err.Error()
+		// the rules recognise the kernel's EINVAL by the errno text; a tree that words its errors differently but
+		// still wraps the errno is described the same way
+		if errors.Is(err, syscall.EINVAL) && !strings.Contains(ev.Err, "invalid argument") {
+			ev.Err += " [errno EINVAL: invalid argument]"
+		}
 	}
 	ev.TidAfter = gettid()
 	hookMu.Lock()
